@@ -16,7 +16,8 @@ rotation groups (point groups of all 530 Hall settings in spglib's database and 
 pair-spring models (the invariant subspace is larger than the spring family), ALM/symfc, rounding.
 After the third seed round: compact-format units on 2×1×1 supercells of the wurtzite, P3 and body-centred cells, where
 `atom_list` (the primitive atoms' supercell indices) is not `0..n-1`, so that an index into the list and an atom index
-differ."""
+differ.  After the fourth: **general invariant models** Φ = Σ x_k B_k (three symbolic coefficients; B_k projected
+random arrays) on eight crystals, because pair springs have symmetric 3×3 blocks and cannot see a transposed block."""
 AS["C02"] = """**As built** (`checks/c02.py`).  As planned for (a) and (b); q stays concrete here (symbolic q is used
 in C12, where the derivative needs it).  The kernel is entered through the *real* `run_dynamical_matrix_solver_c` and
 the real glue `py_dynamical_matrices_with_dd_openmp_over_qpoints`, for dense and sparse shortest-vector storage and full and
@@ -190,3 +191,19 @@ arrays are not modified (the C20 seed aliases `electronic_energies` and adds PV 
 proxy to preserve numpy's no-copy semantics of `asarray`/`array(copy=False)`.  Added later: numerical C_P =
 −T × three-point second difference of the fitted G(T) (`numpy.polyfit` through three points is an exact interpolation
 and is evaluated as such by the stub, linear in the symbolic ordinates).  Quick 3 s."""
+
+# units added after the third and fourth seed rounds (details and reasons in section 8)
+_ADDED = {
+ "C03": "Added after the seed rounds: the interleaved centred cell `nacl8i` (supercell atoms not stored in blocks per primitive atom) and the strongly sheared supercell `[[1,0,0],[1,2,0],[1,1,2]]` (non-orthogonal Niggli transformation).",
+ "C05": "Added after the seed rounds: near-ties decided by a caller-given `symprec`; a `primitive` unit comparing the tables *as stored on `Primitive`* (primitive basis) with brute-force minimum images on cells with non-symmetric (P⁻¹S)ᵀ.",
+ "C09": "Added after the fourth seed round: `consequence` units — `ThermalProperties` (Python and compiled paths, cutoff and imaginary modes on q-points of weight > 1) on irreducible points + weights equals the sums over the full grid, for a model dispersion that is exactly invariant under the reciprocal point group, time reversal and reciprocal translations (ground facts).",
+ "C11": "Added after the fourth seed round: the compiled choice of the shortest main diagonal (which of the four tables a lattice gets) against its definition on 43 lattices, a fifth of which would choose differently if the lattice were read by rows.",
+ "C14": "All units now use a non-default unit-conversion factor (an `IterMesh` that falls back to the default factor is otherwise invisible).",
+ "C15": "Added after the seed rounds: the caller's unit cell stays untouched and `copy()` is independent; a `derived` unit — group velocities (at q, on a q-list, on a mesh) after 40 histories that contain a group-velocity query *before* a state change equal those of a fresh object (ground facts on concrete force constants: the helper's numerics involve LAPACK).",
+ "C16": "Added after the seed rounds: non-symmetric primitive/supercell matrices and datasets with energies (including an energy of exactly 0.0), compared key by key.",
+ "C17": "Added after the fourth seed round: `magmom` — the n-th value of the VASP `MAGMOM` file belongs to the n-th atom of the species-grouped structure file, for all symbol lists of length ≤ 5 over three species (exhaustive ground facts).",
+ "C19": "Added after the fourth seed round: the sampler's own draws — numpy's generator is replaced by a contract stub (a stream is a function of its seed; unseeded generators are unrelated) handing out symbols; every variate slot must receive its own symbol and the displacements must be Σ z_m u(e_m) for exactly those symbols (z3), with and without `random_seed`.",
+ "C20": "Added after the seed rounds: uneven temperature grids with an exact-interpolation oracle; `api` units — every fit made on behalf of `PhonopyQHA(eos=name)` (the static E(V) fit and the F(V;T) fits) hands scipy the named equation of state (term equality, exp and fractional powers uninterpreted).",
+}
+for _k, _v in _ADDED.items():
+    AS[_k] = AS[_k].rstrip() + "\n" + _v
